@@ -123,7 +123,7 @@ var plShots = []string{"https://app.example.com/anything", "https://sub.example.
 
 func genClient(r drv.Rand, id string) *refstore.Client {
 	c := &refstore.Client{ID: id, Secret: "s", App: op.ApplicationTypeWeb, Auth: oidc.AuthMethodBasic,
-		RespTypes: []oidc.ResponseType{oidc.ResponseTypeCode}, Redirects: []string{"https://app.example.com/cb"}}
+		RespTypes: []oidc.ResponseType{oidc.ResponseTypeCode, oidc.ResponseTypeIDTokenOnly}, Redirects: []string{"https://app.example.com/cb"}}
 	n := r.IntN(4)
 	for i := 0; i < n; i++ {
 		c.PostLogout = append(c.PostLogout, drv.Pick(r, postPool))
@@ -280,7 +280,8 @@ func genState(r drv.Rand) (string, string) {
 // ---------------------------------------------------------------- hints
 
 type hintSpec struct {
-	kind     string // none valid expired future badsig foreign garbage tampered expbadsig keyword
+	kind     string // none valid expired future badsig foreign garbage tampered expbadsig keyword unknownkid expunknownkid issued
+	customs  string // kind "issued": comma-separated names of the custom userinfo claims the storage adds to the ID token
 	sub, azp string
 	iss      string // issuer the token is signed for ("" = the issuer of the request it is sent with)
 	key      string // key of the pool that signs it ("" = k1)
@@ -451,7 +452,7 @@ func (h hintSpec) term(current string) string {
 	switch h.kind {
 	case "none":
 		return "TNone"
-	case "valid":
+	case "valid", "issued":
 		return emit.Ctor("TSigned", emit.Str(h.keyName()), alg, emit.Str(iss), "false", emit.Str(h.sub), emit.Str(h.azp))
 	case "expired", "future":
 		return emit.Ctor("TSigned", emit.Str(h.keyName()), alg, emit.Str(iss), "true", emit.Str(h.sub), emit.Str(h.azp))
@@ -489,7 +490,7 @@ func (tc tokCache) get(h hintSpec, current string) string {
 	if h.iss == "" {
 		h.iss = current
 	}
-	k := fmt.Sprintf("%#v", h)
+	k := tcKey(h, current)
 	if t, ok := tc[k]; ok {
 		return t
 	}
@@ -530,7 +531,7 @@ func (h hintSpec) token(current string, tc tokCache) string {
 	}
 	key, kid, alg := sk.Priv, sk.KID, sk.Alg
 	switch h.kind {
-	case "expired", "expbadsig":
+	case "expired", "expbadsig", "expunknownkid":
 		claims["exp"] = now.Add(-time.Hour).Unix()
 	case "future":
 		claims["iat"] = now.Add(time.Hour).Unix()
@@ -540,6 +541,12 @@ func (h hintSpec) token(current string, tc tokCache) string {
 	if h.kind == "badsig" || h.kind == "expbadsig" {
 		key, alg = opfix.ECKey("attacker"), jose.ES256
 	}
+	if h.kind == "unknownkid" || h.kind == "expunknownkid" { // somebody's key under a kid nobody publishes
+		key, alg, kid = opfix.ECKey("attacker"), jose.ES256, "retired-"+kid
+		if h.key == "r1" {
+			key, alg = opfix.RSAKey(), jose.RS256
+		}
+	}
 	return sign(key, kid, alg, claims)
 }
 
@@ -547,7 +554,8 @@ func (h hintSpec) token(current string, tc tokCache) string {
 
 // one provider instance and the requests sent to it in sequence
 type esCase struct {
-	issuerMode int // 0 static issuer, 1 op.IssuerFromHost, 2 op.IssuerFromForwardedOrHost
+	issuerMode int    // 0 static issuer, 1 op.IssuerFromHost, 2 op.IssuerFromForwardedOrHost
+	static     string // mode 0: the issuer ("" = opfix.Issuer)
 	defaultU   string
 	clients    []*refstore.Client
 	reqs       []esReq
@@ -585,6 +593,16 @@ type extra struct {
 type pair struct {
 	name, val, tok string
 	h              *hintSpec
+}
+
+func (q *esReq) hintPtrs() []*hintSpec {
+	out := []*hintSpec{&q.hint}
+	for i := range q.extras {
+		if q.extras[i].hint != nil {
+			out = append(out, q.extras[i].hint)
+		}
+	}
+	return out
 }
 
 // wire lays the request out: the pairs of the body and of the query, each in sending order.
@@ -709,17 +727,88 @@ func (c esCase) issuer(q esReq) string {
 		}
 		return "https://" + q.host
 	}
+	return c.staticIssuer()
+}
+
+func (c esCase) staticIssuer() string {
+	if c.static != "" {
+		return c.static
+	}
 	return opfix.Issuer
 }
 
-func verifiable(kind string) bool { return kind == "valid" || kind == "expired" || kind == "future" }
+// nearIssuers: issuer identifiers that a normalising comparison (port dropped, default port,
+// trailing slash, case of scheme / host, userinfo, path, dot) would take for cur.
+func nearIssuers(cur string) []string {
+	out := []string{cur + "/", cur + "/x", cur + ".", cur + "?", cur + "#", strings.ToUpper(cur), strings.Replace(cur, "https://", "HTTPS://", 1),
+		strings.Replace(cur, "https://", "https://user@", 1), strings.Replace(cur, "https://", "http://", 1), cur + " ", " " + cur, cur + "%2F"}
+	u, err := url.Parse(cur)
+	if err != nil || u.Host == "" {
+		return out
+	}
+	host := u.Hostname()
+	out = append(out, "https://"+strings.ToUpper(host[:1])+host[1:]+strings.TrimPrefix(u.Host, host), "https://"+strings.Replace(host, "s", "\u017f", 1)+strings.TrimPrefix(u.Host, host))
+	if u.Port() == "" {
+		out = append(out, "https://"+host+":443", "https://"+host+":8443", "https://"+host+":80", "https://"+host+":")
+	} else {
+		out = append(out, "https://"+host, "https://"+host+":443", "https://"+host+":1"+u.Port(), "https://"+host+":0"+u.Port(), "https://"+host+":9443")
+	}
+	return out
+}
+
+func verifiable(kind string) bool {
+	return kind == "valid" || kind == "expired" || kind == "future" || kind == "issued"
+}
+
+// claim names a storage may add to the userinfo (and so to the ID token) that collide with a
+// registered claim under case / Unicode folding (U+017F long s, U+212A Kelvin sign)
+var foldClaims = []string{"\u017fub", "\u017fUB", "Sub", "SUB", "i\u017fs", "i\u017f\u017f", "ISS", "Azp", "AZP", "AUD", "Aud", "EXP", "Exp", "IAT", "Auth_Time", "auth_\u017fime", "nonce2", "\u212aid"}
+
+func tcKey(h hintSpec, cur string) string {
+	if h.iss == "" {
+		h.iss = cur
+	}
+	return fmt.Sprintf("%#v", h)
+}
+
+// issue lets the provider of the case issue a REAL ID token (implicit flow, response_type
+// id_token) for user h.sub and client h.azp at the issuer of request q, signed with h.key, while
+// the storage adds the custom claims h.customs (value "u-<user>") to the userinfo.
+func issue(f *opfix.Fixture, store *refstore.Store, q esReq, h hintSpec) string {
+	cl, ok := store.Clients[h.azp]
+	if !ok || len(cl.Redirects) == 0 {
+		return ""
+	}
+	store.Signing, store.ExtraPub, store.FaultMethod = provKey(h.key), nil, ""
+	scope := "openid profile"
+	for _, n := range strings.Split(h.customs, ",") {
+		if n != "" {
+			scope += " custom:" + n
+			if !slices.Contains(cl.AllowedScopes, "custom:"+n) {
+				cl.AllowedScopes = append(cl.AllowedScopes, "custom:"+n)
+			}
+		}
+	}
+	resp := f.GetAt(q.router, q.host, q.fwd, "/authorize", url.Values{"client_id": {h.azp}, "redirect_uri": {cl.Redirects[0]}, "response_type": {"id_token"},
+		"scope": {scope}, "nonce": {"n-1"}, "state": {"x"}})
+	if resp.Location == nil {
+		return ""
+	}
+	id := resp.Location.Query().Get("authRequestID")
+	if id == "" || !store.Login(id, h.sub) {
+		return ""
+	}
+	cb := f.GetAt(q.router, q.host, q.fwd, "/authorize/callback", url.Values{"id": {id}})
+	return cb.ResponseParams().Get("id_token")
+}
 
 func run(w *emit.Writer, c esCase) {
 	store := refstore.New(provKey("k1"))
+	store.EnableCustomUserinfoClaims() // scope custom:<n> = userinfo claim <n> (for the ID tokens issue() obtains)
 	for _, cl := range c.clients {
 		store.Clients[cl.ID] = cl
 	}
-	issuer := op.StaticIssuer(opfix.Issuer)
+	issuer := op.StaticIssuer(c.staticIssuer())
 	switch c.issuerMode {
 	case 1:
 		issuer = op.IssuerFromHost("")
@@ -766,18 +855,38 @@ func run(w *emit.Writer, c esCase) {
 	tc := tokCache{}
 	var human []map[string]any
 	var uris []string
-	for _, rq := range c.reqs {
-		cur := c.issuer(rq)
+	for ri := range c.reqs {
+		rq := &c.reqs[ri]
+		cur := c.issuer(*rq)
 		// key rotation: what the storage publishes while THIS request is served
 		pub := rq.published
 		if len(pub) == 0 {
 			pub = []string{"k1"}
 		}
-		store.Signing = provKey(pub[0])
-		store.ExtraPub = nil
-		for _, k := range pub[1:] {
-			sk := provKey(k)
-			store.ExtraPub = append(store.ExtraPub, &refstore.PublicKey{KID: sk.KID, Alg: sk.Alg, UseStr: "sig", Pub: pubOf(k)})
+		publish := func() {
+			store.Signing = provKey(pub[0])
+			store.ExtraPub = nil
+			for _, k := range pub[1:] {
+				sk := provKey(k)
+				store.ExtraPub = append(store.ExtraPub, &refstore.PublicKey{KID: sk.KID, Alg: sk.Alg, UseStr: "sig", Pub: pubOf(k)})
+			}
+		}
+		publish()
+		for _, hp := range rq.hintPtrs() { // hints that are real ID tokens of THIS provider
+			if hp.kind == "issued" {
+				if _, ok := tc[tcKey(*hp, cur)]; !ok {
+					tok := ""
+					if f != nil && (hp.iss == "" || hp.iss == cur) {
+						tok = issue(f, store, *rq, *hp)
+						publish() // issuing signed with the hint's key: back to what THIS request sees published
+					}
+					if tok == "" { // not issued: the request carries a word instead
+						*hp = hintSpec{kind: "keyword", text: "not-issued"}
+						continue
+					}
+					tc[tcKey(*hp, cur)] = tok
+				}
+			}
 		}
 		body, query := rq.wire(cur, tc)
 		effHint, effClient, effURIs := effective(body, query)
@@ -798,7 +907,7 @@ func run(w *emit.Writer, c esCase) {
 		}
 		resp := &opfix.Resp{}
 		if f != nil {
-			resp = send(f, rq, body, query)
+			resp = send(f, *rq, body, query)
 		}
 		store.FaultMethod = ""
 		term := emit.None
@@ -901,6 +1010,9 @@ func clientsHuman(cs []*refstore.Client) []map[string]any {
 
 var hosts = []string{"a.example.com", "b.example.com"}
 
+// Request.Host values, also with a port (the derived issuer carries it)
+var portHosts = []string{"a.example.com", "b.example.com", "a.example.com", "b.example.com", "a.example.com:8443", "a.example.com:9443", "b.example.com:443"}
+
 // client ids are compared exactly. nearIDs: what a case-insensitive, white-space-trimming,
 // slash-trimming or Unicode-folding comparison would take for id (U+212A KELVIN SIGN folds to k,
 // U+017F LONG S to s).
@@ -947,14 +1059,14 @@ func genOpts(r drv.Rand, c *esCase) {
 // genReq draws one request for the provider c; tags get its input classes.
 func genReq(r drv.Rand, c *esCase, tags map[string]bool) esReq {
 	a, b := c.clients[0], c.clients[1]
-	q := esReq{router: opfix.Provider, host: drv.Pick(r, hosts)}
+	q := esReq{router: opfix.Provider, host: drv.Pick(r, portHosts)}
 	if r.Bool() {
 		q.router = opfix.Legacy
 	}
 	if r.Chance(1, 3) {
 		q.fwd = drv.Pick(r, hosts)
 	}
-	hk := drv.Pick(r, []string{"none", "none", "valid", "valid", "valid", "valid", "valid", "valid", "expired", "expired", "expired", "future", "badsig", "foreign", "garbage", "tampered", "expbadsig"})
+	hk := drv.Pick(r, []string{"none", "none", "valid", "valid", "valid", "valid", "valid", "valid", "expired", "expired", "expired", "future", "badsig", "foreign", "garbage", "tampered", "expbadsig", "unknownkid", "expunknownkid", "expunknownkid", "issued", "issued", "issued"})
 	azp := drv.Pick(r, []string{"ks0", "ks0", "ks0", "ks1", "", "ghost"})
 	q.hint = hintSpec{kind: hk, sub: drv.Pick(r, []string{"alice", "bob", "user 1", "u:1"})}
 	issKind := "current"
@@ -978,11 +1090,30 @@ func genReq(r drv.Rand, c *esCase, tags map[string]bool) esReq {
 		}
 		q.hint.azp = azp
 		if r.Chance(1, 4) { // a hint of another issuer of the same provider (same key)
-			q.hint.iss = drv.Pick(r, []string{"https://a.example.com", "https://b.example.com", opfix.Issuer})
+			q.hint.iss = drv.Pick(r, []string{"https://a.example.com", "https://b.example.com", "https://a.example.com:8443", c.staticIssuer()})
+			if r.Bool() { // next to the issuer of this request
+				q.hint.iss = drv.Pick(r, nearIssuers(c.issuer(q)))
+			}
 			issKind = "other"
 			if q.hint.iss == c.issuer(q) {
 				issKind = "current"
 			}
+		}
+	}
+	if hk == "issued" { // a real ID token of this provider for this request's issuer
+		if !ownKey(q.hint.key) {
+			q.hint.key = "k1"
+		}
+		if azp != "ks0" && azp != "ks1" {
+			azp = "ks0"
+		}
+		q.hint.azp, q.hint.iss, issKind = azp, "", "current"
+		for i, n := 0, r.IntN(3); i < n; i++ {
+			q.hint.customs += drv.Pick(r, foldClaims) + ","
+		}
+		keyKind = "withdrawn"
+		if slices.Contains(q.published, q.hint.key) {
+			keyKind = "published"
 		}
 	}
 	if hk == "garbage" && r.Bool() {
@@ -1160,7 +1291,8 @@ func genExtra(r drv.Rand, c *esCase, q *esReq, kind *string) extra {
 }
 
 func gen(r drv.Rand, w *emit.Writer) {
-	c := esCase{issuerMode: drv.Pick(r, []int{0, 1, 1, 2, 2})}
+	c := esCase{issuerMode: drv.Pick(r, []int{0, 0, 1, 1, 2, 2})}
+	c.static = drv.Pick(r, []string{"", "", "https://op.example.com:8443", "https://op.example.com:443", "https://op.example.com/tenant"})
 	c.defaultU = drv.Pick(r, []string{"", "", "", "https://op.example.com/bye?x=1", "https://op.example.com/done#top", "https://op.example.com/%zz", "https://op.example.com/bye?state=own&z=1", "/out?a=1#f"})
 	c.clients = []*refstore.Client{genClient(r, "ks0"), genClient(r, "ks1")}
 	genOpts(r, &c)
@@ -1283,6 +1415,38 @@ func directed(w *emit.Writer) {
 					esReq{router: router, host: "op.example.com", hint: h1, uri: u, state: "s"})
 			}
 			run(w, esCase{clients: []*refstore.Client{gc, other}, reqs: seq, tags: []string{"directed=globlists", "router=" + router.String()}})
+		}
+		// hints that are REAL ID tokens of this provider, issued while the storage adds userinfo claims
+		// whose names fold to registered claim names; and issuers with a port and their neighbours
+		ic := &refstore.Client{ID: "ks0", Secret: "s", App: op.ApplicationTypeWeb, Auth: oidc.AuthMethodBasic, Redirects: []string{"https://app.example.com/cb"},
+			RespTypes: []oidc.ResponseType{oidc.ResponseTypeCode, oidc.ResponseTypeIDTokenOnly}, PostLogout: []string{"https://app.example.com/bye"}}
+		for _, static := range []string{"", "https://op.example.com:8443"} {
+			var seq []esReq
+			for _, cu := range []string{"", "\u017fub,", "SUB,Azp,", "i\u017fs,AUD,", "EXP,IAT,Auth_Time,", "\u017fub,i\u017f\u017f,\u212aid,"} {
+				seq = append(seq, esReq{router: router, host: "op.example.com", hint: hintSpec{kind: "issued", sub: "alice", azp: "ks0", key: "k1", customs: cu}, uri: "https://app.example.com/bye", state: "s"})
+			}
+			cur := static
+			if cur == "" {
+				cur = opfix.Issuer
+			}
+			for _, iss := range nearIssuers(cur) {
+				seq = append(seq, esReq{router: router, host: "op.example.com", hint: hintSpec{kind: "valid", sub: "alice", azp: "ks0", key: "k1", iss: iss}, uri: "https://app.example.com/bye"})
+			}
+			for _, k := range []string{"expunknownkid", "unknownkid", "expbadsig"} {
+				seq = append(seq, esReq{router: router, host: "op.example.com", hint: hintSpec{kind: k, sub: "alice", azp: "ks0", key: "k1"}, uri: "https://app.example.com/bye"},
+					esReq{router: router, host: "op.example.com", hint: hintSpec{kind: k, sub: "alice", azp: "ks0", key: "r1"}, published: []string{"k1", "r1"}})
+			}
+			run(w, esCase{static: static, clients: []*refstore.Client{ic, other}, reqs: seq, tags: []string{"directed=issued+nearissuer", "router=" + router.String()}})
+		}
+		for _, mode := range []int{1, 2} { // dynamic issuer with a port in the Host
+			var seq []esReq
+			for _, host := range []string{"a.example.com:8443", "a.example.com"} {
+				seq = append(seq, esReq{router: router, host: host, hint: hintSpec{kind: "issued", sub: "bob", azp: "ks0", key: "k1", customs: "\u017fub,"}, uri: "https://app.example.com/bye"})
+				for _, iss := range nearIssuers("https://" + host) {
+					seq = append(seq, esReq{router: router, host: host, hint: hintSpec{kind: "valid", sub: "alice", azp: "ks0", key: "k1", iss: iss}, uri: "https://app.example.com/bye", state: "s"})
+				}
+			}
+			run(w, esCase{issuerMode: mode, clients: []*refstore.Client{ic, other}, reqs: seq, tags: []string{"directed=issued+nearissuer", "router=" + router.String(), fmt.Sprintf("issuer_mode=%d", mode)}})
 		}
 		// EXTRA parameters next to every hint kind, by GET, in a POST body, and split over body and
 		// query: logout_hint / unknown names naming another user, known names twice in both orders
